@@ -1,2 +1,208 @@
 import DuneVerif.Common.Proto
-def main : IO Unit := DV.runDriver fun _ => "bad-op"
+import DuneVerif.Model.C08
+/-! line-protocol driver for C08 (see harness/cxx_c08.cc for the op lines).
+
+Exact ops (`ev2x`, `ev3x`) run the model over `Rat`; values travel as integers / dyadics `<m>p<e>` (= m·2^e, m odd).
+Hand-over ops (`hand`, `handns`, `handnsf`) run the index model of the LAPACK hand-over against the recording fake
+of the harness.  Floating-point ops (`sym`, `nsd`, `nsf`) are decided by the harness oracle; the model only states the
+shape of the answer. -/
+open DV DV.C08
+
+namespace C08Drv
+
+def pow2 (e : Int) : Rat :=
+  if e ≥ 0 then ((2 ^ e.toNat : Nat) : Rat) else (1 : Rat) / ((2 ^ (-e).toNat : Nat) : Rat)
+
+def isPow2 (n : Nat) : Bool := n != 0 && (n &&& (n - 1)) == 0
+
+/-- exact dyadic `<m>p<e>` with m odd, `0` for zero; `none` if the value is not dyadic -/
+def dyadic? (q : Rat) : Option String :=
+  if q.num == 0 then some "0"
+  else if !isPow2 q.den then none
+  else
+    let rec strip (fuel : Nat) (m : Int) (e : Int) : Int × Int :=
+      match fuel with
+      | 0 => (m, e)
+      | fuel + 1 => if m % 2 == 0 then strip fuel (m / 2) (e + 1) else (m, e)
+    let (m, e) := strip (q.num.natAbs.log2 + 1) q.num (-(q.den.log2 : Int))
+    some (toString m ++ "p" ++ toString e)
+
+def dyList? (l : List Rat) : Option String :=
+  (l.mapM dyadic?).map fun ss => "[" ++ ",".intercalate ss ++ "]"
+
+/-- exact square root of a rational if it has one -/
+def ratSqrt? (q : Rat) : Option Rat :=
+  if q.num < 0 then none
+  else
+    let n := q.num.toNat
+    let sn := n.sqrt
+    let sd := q.den.sqrt
+    if sn * sn == n && sd * sd == q.den then some ((sn : Rat) / (sd : Rat)) else none
+
+def epsOf (t : String) : Option Rat :=
+  match t with
+  | "f" => some (pow2 (-23))
+  | "d" => some (pow2 (-52))
+  | "l" => some (pow2 (-63))
+  | _ => none
+
+def sgn (q : Rat) : String := if q < 0 then "-1" else if 0 < q then "1" else "0"
+
+/-- sign pattern canonical up to the sign of the vector (first non-zero component positive) -/
+def signPattern (v : List Rat) : String :=
+  let flip : Rat := match v.find? (· != 0) with
+    | some x => if x < 0 then -1 else 1
+    | none => 1
+  "[" ++ ",".intercalate (v.map fun x => sgn (x * flip)) ++ "]"
+
+def showV2 (v : V2 Rat) : String := signPattern [v.x, v.y]
+def showV3 (v : V3 Rat) : String := signPattern [v.x, v.y, v.z]
+
+def ev2x (t : String) (a b d e : Int) : String :=
+  match epsOf t with
+  | none => "bad-op"
+  | some eps =>
+    let s := pow2 e
+    let A : M2 Rat := ⟨(a : Rat) * s, (b : Rat) * s, (b : Rat) * s, (d : Rat) * s⟩
+    -- the only square root taken is that of q; insist that it is exact
+    let p := Gen.ev2_p A.a00 A.a01 A.a10 A.a11
+    let q := Gen.ev2_q A.a00 A.a01 A.a10 A.a11 p (Gen.ev2_p2 A.a00 A.a01 A.a10 A.a11 p)
+    match ratSqrt? q with
+    | none => "bad-op"
+    | some _ =>
+      let sqrt : Rat → Rat := fun x => (ratSqrt? x).getD 0
+      match eigenValues2d sqrt A with
+      | .error .math => "ERR:Math"
+      | .ok (l0, l1) =>
+        let vecs := match eigenVectorChoice2d eps A l0 l1 with
+          | none => "[[1,0],[0,1]]"
+          | some (c0, c1) => "[" ++ showV2 c0 ++ "," ++ showV2 c1 ++ "]"
+        match dyList? [l0, l1] with
+        | none => "bad-op"
+        | some vs => "vals=" ++ vs ++ " vvals=" ++ vs ++ " vecs=" ++ vecs
+
+def ev3x (t : String) (v : List Int) (e : Int) : String :=
+  match epsOf t, v with
+  | some eps, [a00, a01, a02, a11, a12, a22] =>
+    let s := pow2 e
+    let r (x : Int) : Rat := (x : Rat) * s
+    let A : M3 Rat := ⟨r a00, r a01, r a02, r a01, r a11, r a12, r a02, r a12, r a22⟩
+    let dummy : Rat → Rat := fun _ => 0
+    match eigenValuesVectors3d dummy dummy dummy 0 eps A with
+    | (_, none) => "trig"
+    | ((l0, l1, l2), some (v0, v1, v2)) =>
+      let (w0, w1, w2) := eigenValues3d dummy dummy dummy 0 eps A
+      match dyList? [w0, w1, w2], dyList? [l0, l1, l2] with
+      | some ws, some ls =>
+        "vals=" ++ ws ++ " vvals=" ++ ls ++ " vecs=[" ++ showV3 v0 ++ "," ++ showV3 v1 ++ "," ++ showV3 v2 ++ "]"
+      | _, _ => "bad-op"
+  | _, _ => "bad-op"
+
+def matOf (n : Nat) (xs : List Int) : Nat → Nat → Int := fun i j => xs.getD (i * n + j) 0
+
+def showMat (n : Nat) (M : Nat → Nat → Int) : String :=
+  showList ((List.range n).map fun i => showList ((List.range n).map fun j => M i j))
+
+def allIdx (n : Nat) (p : Nat → Nat → Bool) : Bool :=
+  (List.range n).all fun i => (List.range n).all fun j => p i j
+
+/-- the recording fake returns `Z r c = 100 (c+1) + (r+1)` (eigenvector c in column c) and `w c = c + 1` -/
+def fakeZ : Nat → Nat → Int := fun r c => 100 * ((c : Int) + 1) + ((r : Int) + 1)
+
+def hand (n : Nat) (which : String) (xs : List Int) : String :=
+  if xs.length != n * n || n == 0 then "bad-op" else
+  let known := which == "vals" || which == "vecs" || which == "auto" || which == "autovals"
+  if !known then "bad-op" else
+  if (which == "auto" || which == "autovals") && n ≤ 3 then "no-lapack" else
+  let A := matOf n xs
+  let eff := lapackSeesSym n A
+  let wantVec := which == "vecs" || which == "auto"
+  "eff=" ++ showMat n eff ++ " vals=" ++ showList ((List.range n).map (· + 1)) ++ " vecs=" ++
+    (if wantVec then showMat n (copyBack n fakeZ) else "-")
+
+def handns (n : Nat) (vec : Bool) (xs : List Int) : String :=
+  if xs.length != n * n || n == 0 then "bad-op" else
+  let A := matOf n xs
+  let sees := lapackSeesNonSymD n A
+  let seesA := allIdx n fun r c => sees r c == A r c
+  let seesAT := allIdx n fun r c => sees r c == A c r
+  let spec := if seesA || seesAT then "A" else "other"
+  -- the model takes the vectors from vr, i.e. they are right eigenvectors of what LAPACK sees
+  let rightOf := if !vec then "-" else if seesA then "A" else if seesAT then "AT" else "other"
+  let vals := showList ((List.range n).map fun i => toString (i + 1) ++ ":0")
+  "spectrum-of=" ++ spec ++ " vals=" ++ vals ++ " right-eigenvectors-of=" ++ rightOf ++ " vecs=" ++
+    (if vec then showMat n (copyBack n fakeZ) else "-")
+
+def handnsf (n : Nat) (xs : List Int) : String :=
+  if xs.length != n * n || n == 0 then "bad-op" else
+  let A := matOf n xs
+  let sees := lapackSeesNonSymF n A
+  let seesA := allIdx n fun r c => sees r c == A r c
+  let seesAT := allIdx n fun r c => sees r c == A c r
+  let spec := if seesA || seesAT then "A" else "other"
+  "spectrum-of=" ++ spec ++ " vals=" ++ showList ((List.range n).map fun i => toString (i + 1) ++ ":0")
+
+/-- C99 hexadecimal floating literal as printed by `%a` / `%La` -/
+def isHexFloat (s : String) : Bool :=
+  let cs := s.toList
+  let cs := match cs with | '-' :: r => r | r => r
+  match cs with
+  | '0' :: 'x' :: rest =>
+    let mant := rest.takeWhile (· != 'p')
+    let ex := (rest.dropWhile (· != 'p')).drop 1
+    let ex := match ex with | '+' :: r => r | '-' :: r => r | r => r
+    !mant.isEmpty && mant.all (fun c => c.isDigit || ('a' ≤ c && c ≤ 'f') || c == '.') &&
+      (mant.filter (· == '.')).length ≤ 1 && !ex.isEmpty && ex.all Char.isDigit
+  | _ => false
+
+def isType (t : String) : Bool := t == "f" || t == "d" || t == "l"
+
+def handle (line : String) : String :=
+  match tokens line with
+  | "ev2x" :: t :: rest =>
+    match rest.mapM String.toInt? with
+    | some [a, b, d, e] => ev2x t a b d e
+    | _ => "bad-op"
+  | "ev3x" :: t :: rest =>
+    match rest.mapM String.toInt? with
+    | some xs => if xs.length == 7 then ev3x t (xs.take 6) (xs.getD 6 0) else "bad-op"
+    | none => "bad-op"
+  | "hand" :: t :: ns :: which :: rest =>
+    match isType t, ns.toNat?, rest.mapM String.toInt? with
+    | true, some n, some xs => if n ≤ 6 then hand n which xs else "bad-op"
+    | _, _, _ => "bad-op"
+  | "handns" :: t :: ns :: vs :: rest =>
+    match isType t, ns.toNat?, vs.toNat?, rest.mapM String.toInt? with
+    | true, some n, some v, some xs => if n ≤ 8 && v ≤ 1 then handns n (v == 1) xs else "bad-op"
+    | _, _, _, _ => "bad-op"
+  | "handnsf" :: t :: ns :: rest =>
+    match isType t, ns.toNat?, rest.mapM String.toInt? with
+    | true, some n, some xs => if n ≤ 5 then handnsf n xs else "bad-op"
+    | _, _, _ => "bad-op"
+  | "sym" :: t :: ns :: route :: ks :: rest =>
+    match isType t, ns.toNat?, ks.toInt? with
+    | true, some n, some _ =>
+      if 1 ≤ n && n ≤ 8 && (route == "cf" || route == "lap") && rest.length == n * (n + 1) / 2 && rest.all isHexFloat then
+        "shape n=" ++ toString n ++ " vals=" ++ toString n ++ " vecs=" ++ toString n ++ "x" ++ toString n
+      else "bad-op"
+    | _, _, _ => "bad-op"
+  | "nsd" :: t :: ns :: vs :: ks :: rest =>
+    match isType t, ns.toNat?, vs.toNat?, ks.toInt? with
+    | true, some n, some v, some _ =>
+      if 1 ≤ n && n ≤ 8 && v ≤ 1 && rest.length == n * n && rest.all isHexFloat then
+        "shape n=" ++ toString n ++ " vals=" ++ toString n ++ " vecs=" ++
+          (if v == 1 then toString n ++ "x" ++ toString n else "-")
+      else "bad-op"
+    | _, _, _, _ => "bad-op"
+  | "nsf" :: t :: ns :: ks :: rest =>
+    match isType t, ns.toNat?, ks.toInt? with
+    | true, some n, some _ =>
+      if 1 ≤ n && n ≤ 6 && rest.length == n * n && rest.all isHexFloat then
+        "shape n=" ++ toString n ++ " vals=" ++ toString n ++ " vecs=-"
+      else "bad-op"
+    | _, _, _ => "bad-op"
+  | _ => "bad-op"
+
+end C08Drv
+
+def main : IO Unit := DV.runDriver C08Drv.handle
